@@ -43,7 +43,7 @@ def run(prop, mutant, tier="quick"):
             src = src.replace(extra["old"], extra["new"])
         with open(path, "w") as fh:
             fh.write(src)
-        env = dict(os.environ, VERIF_REPO=tmp)
+        env = dict(os.environ, VERIF_REPO=tmp, VERIF_EVIDENCE_DIR=tmp)
         env.setdefault("VERIF_SEED", "1")
         cmd = [os.path.join(HERE, "check"), prop, tier]
         if mutant.get("only"):
